@@ -5,7 +5,7 @@ NOTES = ("Contract-based deductive verification: Verus on functions extracted me
 ENGINES = [
     {"name": "E1-verus", "path": "engine/rsx.py, engine/verus.py, units/, contracts/", "serves_properties": ["C01", "C03", "C06", "C16"],
      "kind_free_text": "mechanical extraction + spec splicing -> single-file Verus (z3); unbounded proofs"},
-    {"name": "E2-kani", "path": "engine/overlay.py, contracts/*/kani*.rs", "serves_properties": [],
+    {"name": "E2-kani", "path": "engine/overlay.py, contracts/*/kani*.rs", "serves_properties": ["C15", "C20"],
      "kind_free_text": "cargo kani (CBMC) on a scratch copy of the real crates with an add-only cfg(kani) overlay"},
 ]
 PENDING = "check not built yet (framework under construction; see DESIGN.md section 5 for the planned decision)"
@@ -34,6 +34,22 @@ CHECKS = {
         "note": "Call depth is the proxy for stack use (frame sizes are not measured). Trusted: Verus termination rule, U-ITER/U-ESC stand-ins. NOT covered: graph_rec (SPARQL), populate_list/mark_list_node (JSON-LD), Turtle pretty printer, parsers.",
         "technique": "deductive verification (Verus termination obligations: no recursion without decreases; loop decreases) of mechanically extracted code",
     },
+    "C15": {
+        "engine": "E2-kani",
+        "category": "proof",
+        "text": "Kani proves the step contract of Source::try_for_some_item (end / source error / item; callback called exactly once with the mapped item iff it passes; error side and value preserved) for the Iterator source, all 39 adapter chains of depth <= 3 and the three Rio adapters, with loop-free harnesses over symbolic outcomes, adapter parameters and sink results (complete). The real whole-stream drivers (try_for_each_item, insert_all, remove_all) are run for all streams of 3 outcomes (bounded).",
+        "design_ref": "DESIGN.md 4.4, 5 (C15)",
+        "note": "Trusted: Kani/CBMC; closures over u8 items stand for arbitrary items; a stub Rio parser replaces rio_turtle. Whole-stream statement beyond 3 items follows by induction from the step contract (not mechanised). Not covered: serializer sinks, collect_*.",
+        "technique": "Kani proof harnesses stating pre/postconditions of the real functions; loop-free full-domain harnesses (complete) plus bounded stream drivers",
+    },
+    "C20": {
+        "engine": "E2-kani",
+        "category": "proof",
+        "text": "Kani proves on the real code, for EVERY i32 (quick) and every isize/usize (thorough), that lexical_form() lies in the xsd:integer lexical space (full domain, digit loops bounded by type width, unwinding assertions on), and that both bools round-trip; the three non-finite f64 representatives give INF/-INF/NaN (bounded: representatives).",
+        "design_ref": "DESIGN.md 5 (C20)",
+        "note": "Trusted: Kani/CBMC, validator stubs (regex engine out of reach). NOT covered: finite f64 (shortest round-trip fmt / dec2flt), full-domain integer round trip parse(format(x)) == x (CBMC does not finish; measured > 1 h), try_from_term on arbitrary lexical forms.",
+        "technique": "Kani proof harnesses over the full machine domain of the native type (complete), representatives for non-finite floats (bounded)",
+    },
     "C03": {
         "engine": "E1-verus",
         "category": "proof",
@@ -43,4 +59,4 @@ CHECKS = {
         "technique": "deductive verification (Verus pre/postconditions, loop invariants, lemmas) of mechanically extracted code",
     },
 }
-NOT_APPLICABLE = {p: PENDING for p in ["C02", "C04", "C05", "C07", "C08", "C09", "C10", "C11", "C12", "C13", "C14", "C15", "C17", "C18", "C19", "C20"]}
+NOT_APPLICABLE = {p: PENDING for p in ["C02", "C04", "C05", "C07", "C08", "C09", "C10", "C11", "C12", "C13", "C14", "C17", "C18", "C19"]}
